@@ -32,8 +32,26 @@
    cursor machine (DbCursor.out: OIns / ORet / ORAll, and OAns for every fact a goal matched). *)
 From Coq Require Import List Arith Bool Lia ZArith.
 Import ListNotations.
-From YP Require Import Base.Str Term.Term Unify.Unify Engine.Db Engine.DbCursor Engine.DbFacts.
+From YP Require Import Base.Str Term.Term Term.Fast Unify.Unify Unify.Fast Engine.Db Engine.DbCursor Engine.DbFacts.
 Set Implicit Arguments.
+
+(* evaluation-friendly versions of Answer.__init__ / Answer.match (den is exponential when evaluated):
+   the same functions, see the _eq lemmas; the model below runs these *)
+Definition copy_args_fast (s : store) (values : list term) (n : nat) : list term * nat :=
+  let r := ren_list (map (den_fast s) values) ([], n) in (fst r, snd (snd r)).
+Definition answer_init_fast := copy_args_fast.
+Definition answer_match_fast (fuel : nat) (s : store) (n : nat) (goal stored : list term) : ures * nat :=
+  let (cs, n') := copy_args_fast s stored n in (unify_arrays_fast fuel s goal cs, n').
+
+Lemma copy_args_fast_eq s values n : copy_args_fast s values n = copy_args s values n.
+Proof. unfold copy_args_fast, copy_args. rewrite (map_ext _ _ (den_fast_eq s)). reflexivity. Qed.
+Lemma answer_init_fast_eq s n values : answer_init_fast s values n = answer_init s n values.
+Proof. apply copy_args_fast_eq. Qed.
+Lemma answer_match_fast_eq fuel s n goal stored : answer_match_fast fuel s n goal stored = answer_match fuel s n goal stored.
+Proof.
+  unfold answer_match_fast, answer_match. rewrite copy_args_fast_eq. destruct (copy_args s stored n).
+  rewrite unify_arrays_fast_eq. reflexivity.
+Qed.
 
 Inductive goal :=
 | GUnify (a b : term)                      (* A = B *)
@@ -65,8 +83,10 @@ Definition clauses_of (p : program) (name : str) (ar : nat) : list clause :=
   filter (fun c => str_eqb (cname c) name && Nat.eqb (length (chead c)) ar) p.
 
 (* global state: fact store, next Answer identity, allocation counter of Variable cells *)
-Record glob := mkg { gdb : db; gid : nat; gn : nat }.
-Definition set_n (g : glob) (n : nat) : glob := mkg (gdb g) (gid g) n.
+(* gw: work budget (every activation of the search consumes one unit; 0 = give up: the model returns
+   None, like an exhausted fuel) *)
+Record glob := mkg { gdb : db; gid : nat; gn : nat; gw : nat }.
+Definition set_n (g : glob) (n : nat) : glob := mkg (gdb g) (gid g) n (gw g).
 
 Definition res := option (glob * list store * list out).
 
@@ -81,7 +101,7 @@ Fixpoint rallh (uf : nat) (s : store) (args : list term) (l : list fact) (n : na
   match l with
   | [] => Some ([], [], n)
   | f :: r =>
-      match answer_match uf s n args (fargs f) with
+      match answer_match_fast uf s n args (fargs f) with
       | (UOk _, n1) => match rallh uf s args r n1 with Some (keep, gone, n2) => Some (keep, fid f :: gone, n2) | None => None end
       | (UFail, n1) => match rallh uf s args r n1 with Some (keep, gone, n2) => Some (f :: keep, gone, n2) | None => None end
       | _ => None
@@ -97,11 +117,11 @@ Section Loops.
     match l with
     | [] => Some (g, [], [])
     | f :: l' =>
-        match answer_match uf s (gn g) args (fargs f) with
+        match answer_match_fast uf s (gn g) args (fargs f) with
         | (UOk s', n1) =>
             bindr (match rec r s' (set_n g n1) with
                    | None => None
-                   | Some (g1, a1, t1) => Some (g1, a1, OAns (fid f) (map (den s') args) :: t1)
+                   | Some (g1, a1, t1) => Some (g1, a1, OAns (fid f) (map (den_fast s') args) :: t1)
                    end)
                   (scanq args r s l')
         | (UFail, n1) => scanq args r s l' (set_n g n1)
@@ -114,12 +134,12 @@ Section Loops.
     match l with
     | [] => Some (g, [], [])
     | f :: l' =>
-        match answer_match uf s (gn g) args (fargs f) with
+        match answer_match_fast uf s (gn g) args (fargs f) with
         | (UOk s', n1) =>
             if has_id (fid f) (gdb g k) then
-              bindr (match rec r s' (mkg (upd k (del_id (fid f) (gdb g k)) (gdb g)) (gid g) n1) with
+              bindr (match rec r s' (mkg (upd k (del_id (fid f) (gdb g k)) (gdb g)) (gid g) n1 (gw g)) with
                      | None => None
-                     | Some (g1, a1, t1) => Some (g1, a1, ORet k (fid f) (map (den s') args) :: t1)
+                     | Some (g1, a1, t1) => Some (g1, a1, ORet k (fid f) (map (den_fast s') args) :: t1)
                      end)
                     (scanr k args r s l')
             else scanr k args r s l' (set_n g n1)
@@ -135,7 +155,7 @@ Section Loops.
     | c :: cs =>
         let k := gn g in
         let g0 := set_n g (k + cnv c) in
-        match unify_arrays uf s args (map (shift k) (chead c)) with
+        match unify_arrays_fast uf s args (map (shift k) (chead c)) with
         | UOk s' => bindr (rec (map (shift_goal k) (cbody c) ++ r) s' g0) (tryclauses args r s cs)
         | UFail => tryclauses args r s cs g0
         | _ => None
@@ -148,13 +168,14 @@ Section Solve.
   Variable prog : program.
 
   Fixpoint solve (n : nat) (gs : list goal) (s : store) (g : glob) {struct n} : res :=
-    match n with
-    | O => None
-    | S n' =>
+    match n, gw g with
+    | O, _ | _, O => None
+    | S n', S w =>
+        let g := mkg (gdb g) (gid g) (gn g) w in
         match gs with
         | [] => Some (g, [s], [])
         | GUnify a b :: r =>
-            match unify uf s a b with
+            match unify_fast uf s a b with
             | UOk s' => solve n' r s' g
             | UFail => Some (g, [], [])
             | _ => None
@@ -163,31 +184,31 @@ Section Solve.
             bindr (scanq uf (solve n') args r s (gdb g (name, length args)) g)
                   (tryclauses uf (solve n') args r s (clauses_of prog name (length args)))
         | GAssert front t :: r =>
-            match callable (den s t) with
+            match callable (den_fast s t) with
             | None => solve n' r s g
             | Some (name, args) =>
-                let (stored, n1) := answer_init s (gn g) args in
+                let (stored, n1) := answer_init_fast s args (gn g) in
                 let k := (name, length args) in
                 let f := mkfact (gid g) stored in
-                match solve n' r s (mkg (upd k (ins front f (gdb g k)) (gdb g)) (S (gid g)) n1) with
+                match solve n' r s (mkg (upd k (ins front f (gdb g k)) (gdb g)) (S (gid g)) n1 (gw g)) with
                 | None => None
                 | Some (g1, a1, t1) => Some (g1, a1, OIns k front f :: t1)
                 end
             end
         | GRetract t :: r =>
-            match callable (den s t) with
+            match callable (den_fast s t) with
             | None => Some (g, [], [])
             | Some (name, args) => scanr uf (solve n') (name, length args) args r s (gdb g (name, length args)) g
             end
         | GRetractAll t :: r =>
-            match callable (den s t) with
+            match callable (den_fast s t) with
             | None => Some (g, [], [])
             | Some (name, args) =>
                 let k := (name, length args) in
                 match rallh uf s args (gdb g k) (gn g) with
                 | None => None
                 | Some (keep, gone, n1) =>
-                    match solve n' r s (mkg (upd k keep (gdb g)) (gid g) n1) with
+                    match solve n' r s (mkg (upd k keep (gdb g)) (gid g) n1 (gw g)) with
                     | None => None
                     | Some (g1, a1, t1) => Some (g1, a1, ORAll k gone :: t1)
                     end
@@ -197,4 +218,4 @@ Section Solve.
     end.
 End Solve.
 
-Definition ginit (nvars : nat) : glob := mkg empty_db 0 nvars.
+Definition ginit (nvars work : nat) : glob := mkg empty_db 0 nvars work.
